@@ -81,6 +81,7 @@ DETECT = {
     "C07-E": ("C07", ["C07"], ""),
     "C07-F": ("C07", ["C05", "C07"], ""),
     "C08-E": ("C08", ["C08"], ""),
+    "C08-G": ("C08", ["C08"], "round 4 (follow-up session): Unbatcher in-place cache refresh + shallow copy out + aliasing reset; caught by the main oracle and by the alias leg (inferred policy = third unsafe policy of TDV.Alias.unsafe_mutates)"),
     "C08-F": ("C08", ["C08"], "escaped at first: needed a dataset whose state is falsy ({}) before the first fetch, loaded into a loader that had already advanced (both added)"),
     "C10-E": ("C10", ["C10"], "at first only via the broken K-T correspondence: errors with in_order=False are now generated and compared as multisets per epoch"),
     "C10-F": ("C10", ["C10"], "as C10-E"),
